@@ -6,7 +6,13 @@ from dataclasses import dataclass
 from typing import Any, Dict, Optional
 
 from asyncssh.connection import SSHClientConnection, connect
-from asyncssh.misc import ConnectionLost, HostKeyNotVerifiable, KeyExchangeFailed, PermissionDenied
+from asyncssh.misc import (
+    ConnectionLost,
+    DisconnectError,
+    HostKeyNotVerifiable,
+    KeyExchangeFailed,
+    PermissionDenied,
+)
 from asyncssh.stream import SSHReader, SSHWriter
 
 from scrapli.decorators import timeout_wrapper
@@ -287,7 +293,7 @@ class AsyncsshTransport(AsyncTransport):
 
         try:
             buf: bytes = await self.stdout.read(65535)
-        except ConnectionLost as exc:
+        except (DisconnectError, OSError) as exc:
             msg = (
                 "encountered EOF reading from transport; typically means the device closed the "
                 "connection"
@@ -300,4 +306,9 @@ class AsyncsshTransport(AsyncTransport):
     def write(self, channel_input: bytes) -> None:
         if not self.stdin:
             raise ScrapliConnectionNotOpened
-        self.stdin.write(channel_input)
+        try:
+            self.stdin.write(channel_input)
+        except OSError as exc:
+            msg = "failed writing to transport; typically means the device closed the connection"
+            self.logger.critical(msg)
+            raise ScrapliConnectionError(msg) from exc
